@@ -294,7 +294,7 @@ pub struct ScrapeExportConfig {
     /// To make it easier for consuming applications to avoid reading partly
     /// completed scrape exports, the path given here is not written to
     /// directly. Instead, a temporary file is created with the same path but
-    /// with the file extension set to 'tmp'. This file is incrementally
+    /// with '.tmp' appended to the file name. This file is incrementally
     /// written to, and once done, it is moved/renamed to the configured path.
     pub path: PathBuf,
 }
@@ -311,7 +311,13 @@ impl Default for ScrapeExportConfig {
 
 impl ScrapeExportConfig {
     pub fn tmp_path(&self) -> PathBuf {
-        self.path.with_extension("tmp")
+        // Append to the file name instead of replacing the extension, since
+        // the latter yields the configured path itself if it ends in '.tmp'
+        let mut tmp_path = self.path.clone().into_os_string();
+
+        tmp_path.push(".tmp");
+
+        tmp_path.into()
     }
 }
 
